@@ -45,9 +45,15 @@ type sparseRow struct {
 	Cache bool
 }
 
-func TestC02Sparse(t *testing.T) {
+func TestC02Sparse(t *testing.T) { sparseProp(t, "C02") }
+
+// TestC01Sparse: the same cases counted for C01 (its read paths - Get and GetByUUID with
+// receivers that were used before and still carry data, All - report the last accepted values).
+func TestC01Sparse(t *testing.T) { sparseProp(t, "C01") }
+
+func sparseProp(t *testing.T, prop string) {
 	rapid.Check(t, func(rt *rapid.T) {
-		g := NewG(rt, &Profile{Property: "C02", TinyBias: 90, NoHugeStr: true})
+		g := NewG(rt, &Profile{Property: prop, TinyBias: 90, NoHugeStr: true})
 		n := 2 + g.uni(10, "n")
 		var rows []sparseRow
 		for i := 0; i < n; i++ {
@@ -79,13 +85,13 @@ func TestC02Sparse(t *testing.T) {
 			}
 			rows = append(rows, r)
 		}
-		prog := &Program{Property: "C02", Aux: map[string]interface{}{"sparse": rows, "cache": g.pct("cache") < 30, "async": g.pct("async") < 15, "compress": g.pct("compress") < 30}}
+		prog := &Program{Property: prop, Aux: map[string]interface{}{"sparse": rows, "cache": g.pct("cache") < 30, "async": g.pct("async") < 15, "compress": g.pct("compress") < 30}}
 		guard(rt, prog, func() { caseC02Sparse(rt, prog) })
 	})
 }
 
 func caseC02Sparse(t TB, prog *Program) {
-	st := statsFor("C02")
+	st := statsFor(prog.Property)
 	var rows []sparseRow
 	reJSON(prog.Aux["sparse"], &rows)
 	cache, _ := prog.Aux["cache"].(bool)
@@ -206,6 +212,28 @@ func caseC02Sparse(t TB, prog *Program) {
 				}
 			}
 		}
+		// Get / GetByUUID with receivers that still carry another object's data: members the file
+		// omits are zero, not whatever the receiver held
+		for id, want := range model {
+			recv := &Sparse{K: 99, A: 99, S: "stale", F: 9.5, In: SparseIn{N: 9, S: "stale"}, P: &SparseIn{N: 9, S: "stale"}, L: []string{"stale"}}
+			recv.Initialize(id)
+			got, err := db.Get(recv)
+			if err != nil {
+				fail("%s: Get(%s): %v", when, id, err)
+			}
+			if r := rowOf(got.(*Sparse)); r != want || len(got.(*Sparse).L) != 0 {
+				fail("%s: Get with a receiver that carried other data returns %+v (L=%v) for %s, stored was %+v", when, r, got.(*Sparse).L, id, want)
+			}
+			recv2 := &Sparse{K: 98, A: 98, S: "stale2", P: &SparseIn{N: 8}}
+			recv2.Initialize("11111111-2222-4333-8444-555555555555")
+			got2, err := db.GetByUUID(recv2, id)
+			if err != nil || got2.UUID() != id {
+				fail("%s: GetByUUID(%s) with a receiver identified otherwise: uuid %v err=%v", when, id, got2 != nil && got2.UUID() == id, err)
+			}
+			if r := rowOf(got2.(*Sparse)); r != want {
+				fail("%s: GetByUUID with a receiver that carried other data returns %+v for %s, stored was %+v", when, r, id, want)
+			}
+		}
 		all, err := db.All(&Sparse{})
 		if err != nil || len(all) != len(model) {
 			fail("%s: All returns %d objects (err=%v), %d are stored", when, len(all), err, len(model))
@@ -257,7 +285,9 @@ func rowsString(m map[string]sparseRow) string {
 }
 
 func init() {
-	replayAlts = append(replayAlts, replayAlt{prop: "C02", match: hasAux("sparse"), run: func(t *testing.T, prog *Program) {
-		guardT(t, prog, func() { caseC02Sparse(t, prog) })
-	}})
+	for _, prop := range []string{"C01", "C02"} {
+		replayAlts = append(replayAlts, replayAlt{prop: prop, match: hasAux("sparse"), run: func(t *testing.T, prog *Program) {
+			guardT(t, prog, func() { caseC02Sparse(t, prog) })
+		}})
+	}
 }
